@@ -194,6 +194,36 @@ fn eval(v: &Value) -> Value {
                 _ => go!(MolecularShape2),
             }
         }
+        "State::order" => {
+            // [kind, state1, state2] -> scores and the orderings the real Ord/PartialOrd give
+            let kind = a[0].as_str().unwrap();
+            let (j1, j2) = (a[1].to_string(), a[2].to_string());
+            let ord = |o: Option<std::cmp::Ordering>| match o {
+                Some(std::cmp::Ordering::Less) => json!("Less"),
+                Some(std::cmp::Ordering::Equal) => json!("Equal"),
+                Some(std::cmp::Ordering::Greater) => json!("Greater"),
+                None => Value::Null,
+            };
+            macro_rules! go {
+                ($t:ty) => {{
+                    let s1: $t = serde_json::from_str(&j1).unwrap();
+                    let s2: $t = serde_json::from_str(&j2).unwrap();
+                    let c = std::panic::catch_unwind(std::panic::AssertUnwindSafe(|| s1.cmp(&s2)));
+                    let mx = std::panic::catch_unwind(std::panic::AssertUnwindSafe(|| {
+                        let m = std::cmp::max(s1.clone(), s2.clone());
+                        m.score()
+                    }));
+                    json!({"s1": s1.score().map(fl), "s2": s2.score().map(fl), "partial_cmp": ord(s1.partial_cmp(&s2)),
+                           "cmp": match c { Ok(x) => ord(Some(x)), Err(_) => json!("panic") },
+                           "max_score": match mx { Ok(x) => json!(x.map(fl)), Err(_) => json!("panic") }})
+                }};
+            }
+            match kind {
+                "lj" => go!(PotentialState<LJShape2>),
+                "line" => go!(PackedState<LineShape>),
+                _ => go!(PackedState<MolecularShape2>),
+            }
+        }
         "PotentialState::score" => {
             let s: PotentialState<LJShape2> = serde_json::from_str(&a[0].to_string()).unwrap();
             match s.score() {
